@@ -326,6 +326,13 @@ func (c WTVarIntSliceWrapper) Read(data []byte, ptr unsafe.Pointer, wt plenccore
 		// Ensure the GC knows the type of this slice.
 		h.Data = unsafe_NewArray(c.EltType, int(count))
 		h.Cap = int(count)
+	} else {
+		// We're going to re-use the backing array. As the other slice wrappers
+		// do we start from zeros: an element that is a pointer would otherwise
+		// be decoded into whatever the old element still points to.
+		for i := 0; i < count; i++ {
+			typedmemclr(unpackEFace(c.EltType).data, unsafe.Add(h.Data, i*int(c.EltSize)))
+		}
 	}
 	h.Len = count
 
